@@ -34,6 +34,7 @@ struct Model {
     std::deque<long> q_items; std::deque<int> q_wait;
     std::vector<std::vector<int>> pause_snap; std::vector<int> pause_owner;
     bool outer_active = false;
+    bool last_end_transfers = true;           // did the last segment end hand control to another coroutine (symmetric transfer), or return to the bottom of the chain?
 
     void reset() { *this = Model(); for (int i = 0; i < MAXC; i++) { state[i] = NOTSTARTED; active[i] = false; segs[i] = 0; parent[i] = -1; spawned[i] = false; } for (auto &b : fut_resolved) b = false; }
     void batch(std::vector<int> m) { if (m.empty()) return; for (int x : m) state[x] = READY; ready.push_back(std::move(m)); }
@@ -48,7 +49,10 @@ struct Model {
         else if (direct.count(x)) { direct.erase(x); take_from_ready(x); ok = true; }
         if (!ok && !one_of.empty()) one_of.clear();
         if (!ok) {
-            bool nested_ok = !running.empty() && in_nested_call.back();
+            // inside a nested start() the ready queue may only be reached through a transfer chain (pause, awaited suspend point):
+            // once a segment ended by suspending on something pending, control is back in the starter and nothing else may start
+            bool nested_ok = !running.empty() && in_nested_call.back() && last_end_transfers;
+            if (!running.empty() && in_nested_call.back() && !last_end_transfers) dsim::fail("C05.S1_drained_inside_nested_start", "coroutine %d taken from the ready queue inside the start() call of coroutine %d after the started chain had suspended: coroutine %d had not suspended", x, running.back(), running.back());
             if (!running.empty() && !nested_ok) dsim::fail("C05.S1_started_before_suspension", "coroutine %d started while coroutine %d is still running (made ready by a discarded operation)", x, running.back());
             if (ready.empty() || !in_ready(x)) dsim::fail("C05.S2_not_ready", "coroutine %d resumed but it is not in the ready queue (resumed twice, or never made ready)", x);
             auto &h = ready.front(); auto it = std::find(h.begin(), h.end(), x);
@@ -63,7 +67,8 @@ struct Model {
         active[x] = true; state[x] = RUNNING; segs[x]++; running.push_back(x); in_nested_call.push_back(false);
         dsim::event("seg_begin", x);
     }
-    void seg_end(int x) {
+    void seg_end(int x, bool transfers) {
+        last_end_transfers = transfers;
         if (running.empty() || running.back() != x) dsim::fail("C05.harness", "segment end of %d but top of running stack differs", x);
         active[x] = false; running.pop_back(); in_nested_call.pop_back();
         dsim::event("seg_end", x);
@@ -101,7 +106,7 @@ cocls::async<void> coro(int id) {
             M.pause_snap.push_back(snap); M.pause_owner.push_back(id);
             M.batch({id});
             if (M.ready.size() == 1 && M.ready.front().size() == 1) M.direct.insert(id);   // nothing else queued: continues itself
-            M.seg_end(id);
+            M.seg_end(id, true);          // pause() swaps with the head of the ready queue
             co_await cocls::pause();
             M.seg_begin(id);
             break; }
@@ -120,7 +125,7 @@ cocls::async<void> coro(int id) {
             if (op == RESOLVE_DISCARD) { discard_effect(id, rd); proms[a](); }
             else {
                 bool susp = await_effect(id, rd);
-                if (susp) M.seg_end(id);
+                if (susp) M.seg_end(id, true);   // awaited suspend point: one member is transferred to
                 co_await proms[a]();
                 if (susp) M.seg_begin(id);
             }
@@ -128,7 +133,7 @@ cocls::async<void> coro(int id) {
         case AWAIT_FUT: {
             if (M.fut_resolved[a]) { co_await *futs[a]; break; }
             M.fut_waiters[a].push_back(id); M.state[id] = Model::SUSPENDED;
-            M.seg_end(id);
+            M.seg_end(id, false);         // pending future: control returns to the bottom of the chain
             co_await *futs[a];
             M.seg_begin(id);
             break; }
@@ -141,7 +146,7 @@ cocls::async<void> coro(int id) {
         case AWAIT_CHILD: {
             if (a <= id || a >= M.ncoro || M.spawned[a]) break;
             M.spawned[a] = true; M.parent[a] = id; M.direct.insert(a); M.state[id] = Model::SUSPENDED;
-            M.seg_end(id);
+            M.seg_end(id, true);          // co_await child: direct transfer
             co_await coro(a);
             M.seg_begin(id);
             break; }
@@ -153,24 +158,24 @@ cocls::async<void> coro(int id) {
             M.in_nested_call.back() = false;
             if (M.state[a] != Model::DONE) {
                 M.parent[a] = id; M.state[id] = Model::SUSPENDED;
-                M.seg_end(id);
+                M.seg_end(id, false);
                 co_await f;
                 M.seg_begin(id);
             } else co_await f;
             break; }
         case LOCK_REL_DISCARD: case LOCK_REL_AWAIT: {
             bool must_wait = M.mx_owner >= 0;
-            if (must_wait) { M.mx_wait.push_back(id); M.state[id] = Model::SUSPENDED; M.seg_end(id); }
+            if (must_wait) { M.mx_wait.push_back(id); M.state[id] = Model::SUSPENDED; M.seg_end(id, false); }
             auto own = co_await mx->lock();
             if (must_wait) M.seg_begin(id);
             if (M.mx_owner != (must_wait ? id : -1)) dsim::fail("C05.harness", "mutex model out of step");
             M.mx_owner = id;
             // hold the mutex across a pause so that others queue up behind it
-            { std::vector<int> snap; M.all_ready(snap); M.pause_snap.push_back(snap); M.pause_owner.push_back(id); M.batch({id}); if (M.ready.size() == 1 && M.ready.front().size() == 1) M.direct.insert(id); M.seg_end(id); co_await cocls::pause(); M.seg_begin(id); }
+            { std::vector<int> snap; M.all_ready(snap); M.pause_snap.push_back(snap); M.pause_owner.push_back(id); M.batch({id}); if (M.ready.size() == 1 && M.ready.front().size() == 1) M.direct.insert(id); M.seg_end(id, true); co_await cocls::pause(); M.seg_begin(id); }
             Readied rd;
             if (!M.mx_wait.empty()) { int w = M.mx_wait.front(); M.mx_wait.pop_front(); rd.m.push_back(w); M.mx_owner = w; } else M.mx_owner = -1;
             if (op == LOCK_REL_DISCARD) { discard_effect(id, rd); own.release(); }
-            else { bool susp = await_effect(id, rd); if (susp) M.seg_end(id); co_await own.release(); if (susp) M.seg_begin(id); }
+            else { bool susp = await_effect(id, rd); if (susp) M.seg_end(id, true); co_await own.release(); if (susp) M.seg_begin(id); }
             break; }
         case Q_PUSH: {
             Readied rd;
@@ -181,7 +186,7 @@ cocls::async<void> coro(int id) {
         case Q_POP: {
             if (!M.q_items.empty()) { long want = M.q_items.front(); M.q_items.pop_front(); long got = co_await q->pop(); if (got != want) dsim::fail("C05.harness", "queue value"); break; }
             M.q_wait.push_back(id); M.state[id] = Model::SUSPENDED;
-            M.seg_end(id);
+            M.seg_end(id, false);
             try { (void)co_await q->pop(); } catch (const cocls::await_canceled_exception &) {}
             M.seg_begin(id);
             break; }
@@ -190,7 +195,7 @@ cocls::async<void> coro(int id) {
     // finishing: a coroutine awaited by its parent transfers straight into it
     M.state[id] = Model::DONE;
     if (M.parent[id] >= 0) M.direct.insert(M.parent[id]);
-    M.seg_end(id);
+    M.seg_end(id, M.parent[id] >= 0);     // a finished coroutine transfers into the coroutine awaiting it, else the chain ends
 }
 
 void outer_returned(const char *what) {
